@@ -676,7 +676,7 @@ type VerifyOpts struct {
 func (e *Engine) newUnit(fn *ssa.Function) *Unit {
 	u := &Unit{eng: e, w: newWorld(), fun: fn, name: unitName(fn), oblCount: map[string]int{}, heapSorts: map[string]string{}, heapElem: map[string]types.Type{},
 		hver: map[string]*heapVersion{}, frameDone: map[string]bool{}, ghostSort: map[string]string{}, notes: map[string]bool{}, inlined: map[string]bool{},
-		usedSpecs: map[string]bool{}, usedStd: map[string]bool{}, usedPure: map[string]bool{}, implIfaces: map[string]types.Type{}, assume: map[string]bool{}, usedContracts: map[string]bool{}, sliceConstLen: map[string]int{}, usedInvs: map[string]bool{}}
+		usedSpecs: map[string]bool{}, usedStd: map[string]bool{}, usedPure: map[string]bool{}, implIfaces: map[string]types.Type{}, assume: map[string]bool{}, usedContracts: map[string]bool{}, sliceConstLen: map[string]int{}, usedInvs: map[string]bool{}, hparents: map[string][]string{}}
 	return u
 }
 
